@@ -212,6 +212,7 @@ func init() {
 		Explanation: "Decides, for every sequence of writer calls, the structural clauses of the PDF writer: bytes reach the io.Writer only through write/writeBytes which add the returned count to pos; every 'n 0 obj' emission is immediately preceded by recording pos at index n-1; the reserved catalog/info/page-tree numbers agree with trailer Root/Info, catalog Pages and every page's Parent, and xref count == trailer Size; a stream's Length is len() of exactly the slice written between stream/endstream; the six metadata fields are stored under the key of the same name from the field of the same name; every font map in which getFont reserves a reference is written in Close with the matching vertical flag; no module type implementing an interface map key is non-comparable (or it is unwrapped before every use); the content-stream fragments form only PDF operators with balanced q/Q, BT/ET and terminated strings (abstract interpretation with inlining); every resource name given to gs/scn/SCN/Tf/Do is registered in the page's resources under the category the operator uses. NOT decided: byte-exact offsets of concrete documents, filter decodability, font program validity, the page count arithmetic.",
 		Assumptions: []string{"fmt.Fprintf writes exactly the formatted bytes and returns their count", "path data produced by Path.ToPDF is treated as an opaque, well-delimited operand sequence (its own operator arities are checked under C11/C12)"},
 		Run: func(c *core.Ctx, r *core.Report) {
+			E5GradientOffsetsUsed(c, r)
 			E5DictCompleteBeforeWrite(c, r)
 			E5CMapBlockLimit(c, r)
 			E5NameMemoScope(c, r)
@@ -247,6 +248,7 @@ func init() {
 		Explanation: "Decides structural agreement among the four back-ends for every drawing: each RenderPath reads every Style field (a back-end that never reads a field cannot honour it); every explicit Dash call receives canvas.ScaleDash(style.StrokeWidth, …) like the reference rasterizer; every path serialised by ToSVG/ToPDF/ToPS/ToScanxScanner derives on every path from Transform(M) with M built from the view parameter (SVG: with the y-flip), incl. the explicit-outline fall-backs; cap/join codes per concrete Capper/Joiner type agree with the formats' tables and the even-odd marker is emitted only under FillRule == EvenOdd; the emitted PDF and PostScript fragments form only operators of the respective vocabulary with balanced save/restore (abstract interpretation with path-sensitive repeated conditions), and procedure names emitted by Path.ToPS are defined in the PS prolog. NOT decided: that an interpreter of the output paints the same pixels, gradients/patterns, text, opacity, unit factors, Positive/Negative fill rules (no back-end format has them).",
 		Assumptions: []string{"the rasterizer is the reference for dash scaling", "PS.RenderImage (binary image data) is outside the grammar rule"},
 		Run: func(c *core.Ctx, r *core.Report) {
+			E5GradientOffsetsUsed(c, r)
 			E11ImageExtentFromSize(c, r)
 			E11AboutIsConjugation(c, r) // the Matrix helpers every view and transformation is composed with
 			E11MatrixComposers(c, r)    // the Matrix helpers every view and transformation is composed with
@@ -288,6 +290,7 @@ func init() {
 		Explanation: "Decides, for every path and argument: (1) every exported method of *Path/Paths other than the documented in-place mutators/sinks (each re-justified by its doc phrase) writes no memory reachable from its receiver or arguments — interprocedural effect analysis on SSA; the copy-on-write latch of replace is verified structurally; (2) the command encoding discipline: cmdLen vs the format, payload offsets inside the decoded record, every record built/retagged with the command at both ends; Split hands out capacity-limited sub-slices; (3) no in-place transform accumulates over loop iterations, no loop state variable is stuck at its initial constant. (4) since batch 12: every explicit panic reachable from Settle/And/Or/Xor/Not/DivideBy is a reviewed precondition or data-structure guard, or a known finding with a failing input; the sweep's work-list loop is reported for having no explicit bound (known finding: an operand pair on which Or does not return). NOT decided: 'no zero-length segments', the geometry the builders trace, implicit run-time panics other than those named, termination of anything but that loop.",
 		Assumptions: []string{"standard-library functions not in the mutator table are pure (listed in coverage.external_assumed)", "results of calls through function-typed parameters are fresh objects", "one reviewed call edge: Dash -> Join (reason in the checker's exception table)"},
 		Run: func(c *core.Ctx, r *core.Report) {
+			E11RecordedPathCopied(c, r)
 			E9SquareRangeBothEnds(c, r)
 			E11QuadLineTestMirror(c, r)
 			E11StaleAfterBuilder(c, r)
@@ -329,6 +332,7 @@ func init() {
 		Explanation: "Decides, for every canvas: (1) 'rendering leaves the canvas, its paths and its gradients unchanged': RenderPath/RenderText/RenderImage of all four back-ends, Canvas.RenderTo/RenderViewTo and rasterizer.Draw write no memory reachable from the path, style (dash array, gradient stops, patterns), text, image or canvas arguments (interprocedural effect analysis on SSA with callback-invocation summaries); (2) the rasterizer reads every Style field including the fill rule; (3) every scanner emission maps coordinates as (x*dpmm, height-y*dpmm) and the image size is width x height x resolution in both constructors. NOT decided: pixel coverage, anti-aliasing, later-draws-cover-earlier, determinism of the scanner library.",
 		Assumptions: []string{"standard-library functions not in the mutator table are pure (listed in coverage.external_assumed)", "results of calls through function-typed parameters are fresh objects", "third-party Go dependencies are analysed from source, cgo is not"},
 		Run: func(c *core.Ctx, r *core.Report) {
+			E6ScannerColorMemo(c, r)
 			E11ImageExtentFromSize(c, r)
 			E11ImageReplacedExtent(c, r)
 			E11AboutIsConjugation(c, r) // the Matrix helpers every view and transformation is composed with
@@ -356,6 +360,7 @@ func init() {
 		Title:       "Context and Canvas apply views, coordinate systems and state as documented",
 		Explanation: "Decides, for every call sequence: view helpers are exactly `view = view.Mul(Identity.<same-named op>(own parameters))` (post-multiplication) and ComposeView post-multiplies its argument; the four draw entry points assemble the same matrix CoordSystemView().Mul(view).Translate(coordView.Dot(x,y)) and compensate text/images exactly in the coordinate systems whose CoordSystemView reflects that axis; every Set*/Reset* method stores only into ContextState; Push saves and Pop restores the whole ContextState (Pop guarded, shrinking by one); Fill/Stroke clear and restore exactly the other paint; drawing does not rewrite the dash array shared with pushed states; RenderViewTo replays in sorted z-index then slice order with no renderer call inside a map range, and recording appends to the current z-index slice. NOT decided: the matrix algebra itself, Fit/Clip/Transform arithmetic, that DrawPath with several paths keeps per-path stroke state.",
 		Run: func(c *core.Ctx, r *core.Report) {
+			E11RecordedPathCopied(c, r)
 			E11DashCheckUnits(c, r)
 			E11AccumulatorRestart(c, r)
 			E3BoundingBoxes(c, r) // Rect.Transform and the hull methods: Fit, Clip and the views map boxes with them
@@ -485,6 +490,7 @@ func init() {
 		Title:       "Embedded fonts and glyph paths reproduce the laid-out text",
 		Explanation: "Decides three structural clauses: (1) 'the glyph subsetter assigns each used glyph one stable code with .notdef at zero' — the constructor and Get/List have exactly the hit/miss/append shape, and the PDF writer creates a font's subsetter only when the font has none (a second writing direction must not reset the codes already written); (2) fonts used for vertical text are kept in their own map and written with the matching vertical flag (Identity-V vs Identity-H), every font map that reserves an object is written in Close, and every Tf operand names a font registered in the page's resources (E5 font-map and resource rules). (3) the ToUnicode grouping loop keeps `start+length` equal to the visited code (E11.run-covers-codes). NOT decided: outlines, advances, the W array contents, the characters the ToUnicode map names, glyph placement in toPath.",
 		Run: func(c *core.Ctx, r *core.Report) {
+			E5CIDToGIDEntries(c, r)
 			E5WidthIDSpace(c, r)
 			E11SpanOffsetAxes(c, r)
 			E5CMapBlockLimit(c, r)
